@@ -97,6 +97,9 @@ SessValid = S.uf('SessValid', [Val], smt.B)
 
 
 def _valid_attr(ex, v, st):
+    if not ex.opts.get('session_valid_model'):          # only for the contracts below; default elsewhere
+        return VOpaque(z3.Function('v_attr_valid', Val, Val)(v.t))
+
     def call(ex2, args, kw, st2, fr, node):
         return [Outcome('normal', st2, VBool(SessValid(v.t)))]
     return VPy(SpecFn(call, 'valid'))
@@ -256,7 +259,7 @@ _c = contract(SC + '_purge', params={'self': cache_obj()}, setup=_setup,
               raises={},
               ensures=lambda ns: S.And(_b(_purge_post(ns, ns.local('currentTime').t)), _frame(ns),
                                        _b(ns.local('currentTime').t == View(ns).clock)),
-              loops=_PURGE_LOOP, prop='C18',
+              loops=_PURGE_LOOP, prop='C18', opts={'prune': False},
               doc='under the representation invariant: raises nothing (no KeyError inside), keeps the invariant, '
                   'removes exactly the entries with now - t > maxAge, changes nothing else')
 _c.variant = 'inline'          # callers execute the real body (with this loop invariant) instead of the summary
@@ -290,7 +293,7 @@ def _get_exc(ns):
 contract(SC + '__getitem__', params={'self': cache_obj(), 'sessionID': T.bytes()}, setup=_setup,
          requires=_req, raises={KeyError: None}, result=T.opaque(),
          ensures=_get_ensures, exc_ensures=_get_exc, loops={('SessionCache._purge', 1): _PURGE_LOOP[1]},
-         prop='C18',
+         prop='C18', opts={'prune': False, 'session_valid_model': True},
          doc='returns the session last stored under the id iff it is in the cache, now - t <= maxAge and it is valid; '
              'otherwise KeyError and nothing else; the lock is released on both exits; the invariant is kept')
 
@@ -331,14 +334,14 @@ def _set_safe(ns):
 
 contract(SC + '__setitem__', name='SessionCache.__setitem__[safety]',
          params={'self': cache_obj(), 'sessionID': T.bytes(), 'session': T.opaque()}, setup=_setup,
-         requires=_req, raises={}, ensures=_set_safe, prop='C18',
+         requires=_req, raises={}, ensures=_set_safe, prop='C18', opts={'prune': False},
          doc='under the representation invariant a store raises nothing, releases the lock, keeps firstIndex/lastIndex '
              'in range and changes neither maxAge nor the list length')
 
 contract(SC + '__setitem__', name='SessionCache.__setitem__[fresh id]',
          params={'self': cache_obj(), 'sessionID': T.bytes(), 'session': T.opaque()}, setup=_setup,
          requires=lambda ns: S.And(_req(ns), _b(z3.Not(z3.Select(View(ns).dom, to_val(ns.sessionID))))),
-         raises={}, ensures=lambda ns: S.And(_b(_set_stores(ns)), _b(_set_inv(ns))), prop='C18',
+         raises={}, ensures=lambda ns: S.And(_b(_set_stores(ns)), _b(_set_inv(ns))), prop='C18', opts={'prune': False},
          doc='storing under an id that is NOT in the cache: the entry is stored, only the oldest entry is evicted and only '
              'when the list is full, the representation invariant is kept')
 
@@ -363,8 +366,22 @@ REG.note('C18', 'assumptions', 'time.time() is a monotone clock with integer-val
          'cache_degenerate_sizes)')
 REG.note('C18', 'assumptions', 'size bound: R2+R3 make pos an injection of the dict keys into the live cells, of which there '
          'are (lastIndex - firstIndex) mod n <= n - 1; the counting step itself is not an SMT obligation')
-REG.note('C18', 'not_built', 'SessionCache.__init__ establishing the representation invariant (needs `[(None,None)] * n` and '
-         '`{}` as symbolic collections); histories are covered only by the bounded cross-check')
 REG.note('C18', 'not_built', 'linearizability itself (monitor theorem) is an argument on paper: per-operation critical '
          'section + sequential contracts; no schedule is executed.  RSA blinding pair consistency and VerifierDB round '
          'trip are not part of this module')
+
+
+# --------------------------------------------------------------------------
+# __init__ establishes the representation invariant (empty cache, lock free)
+def _init_post(ns):
+    n = View(ns)
+    k = _qv('k')
+    return S.And(_b(RI(n, ns.pos.t)), _b(z3.ForAll([k], z3.Not(z3.Select(n.dom, k)))), _b(z3.Not(n.held)),
+                 _b(z3.And(n.N == ns.maxEntries.t, n.maxAge == ns.maxAge.t, n.F == 0, n.L == 0)))
+
+
+contract(SC + '__init__', params={'self': T.obj(SCM.SessionCache), 'maxEntries': T.int(2), 'maxAge': T.int()},
+         setup=_setup, raises={}, ensures=_init_post,
+         opts={'symdict_literals': True, 'symtuplelist_repeat': True, 'prune': False}, prop='C18',
+         doc='for maxEntries >= 2 the constructor raises nothing and establishes the representation invariant '
+             '(empty dict, empty segment, lock not held, list length == maxEntries)')
